@@ -3,6 +3,7 @@ package props
 import (
 	"fmt"
 	"sort"
+	"strings"
 	"testing"
 
 	"github.com/256dpi/lungo"
@@ -52,6 +53,25 @@ func modelFromCatalog(cat *lungo.Catalog) *ref.Model {
 		m.Colls[h.String()] = mc
 	}
 	return m
+}
+
+// certainConflict: {$set: {p: "fresh-..", q: "fresh-.."}} where one path is
+// an ancestor of the other.
+func certainConflict(upd bson.D) bool {
+	if len(upd) != 1 || upd[0].Key != "$set" {
+		return false
+	}
+	f := asD(upd[0].Value)
+	if len(f) != 2 {
+		return false
+	}
+	for _, e := range f {
+		if s, ok := e.Value.(string); !ok || !strings.HasPrefix(s, "fresh-") {
+			return false
+		}
+	}
+	a, b := f[0].Key, f[1].Key
+	return strings.HasPrefix(a, b+".") || strings.HasPrefix(b, a+".")
 }
 
 func isObjectID(v interface{}) bool { _, ok := v.(primitive.ObjectID); return ok }
@@ -132,6 +152,19 @@ func (o *oracleModel) modelStep(step, lres bson.D) (ref.Res, ref.Status) {
 		}
 		if id := getD(lres, "upsertedID"); isObjectID(id) {
 			a.GenID = id
+		}
+		if certainConflict(a.Update) {
+			// a path and its ancestor are both set to fresh values: whenever
+			// the update is applied to a document (a match, or an upsert) it
+			// is rejected as a whole
+			n, st := m.Count(ns, a.Filter, 0, 0)
+			if st != ref.OK {
+				return ref.Res{}, st
+			}
+			if n.N >= 1 || a.Upsert {
+				return ref.Res{Err: "other"}, ref.OK
+			}
+			return ref.Res{}, ref.Outside
 		}
 		r, _, _, st := m.Update(ns, a)
 		return r, st
